@@ -895,7 +895,12 @@ impl<'a> CompilerState<'a> {
                 let mut px = pair.into_inner();
                 let mut s = self.compile_quoted_string(px.next().unwrap())?;
                 let size = if let Some(x) = px.next() {
-                    Some(self.parse_calc(x.into_inner())? as u32)
+                    let start = x.as_span().start();
+                    let v = self.parse_calc(x.into_inner())?;
+                    if !(0..=65536).contains(&v) {
+                        return Err(self.syntax_error("Bad inline assembly size", start));
+                    }
+                    Some(v as u32)
                 } else {
                     None
                 };
@@ -1134,7 +1139,7 @@ impl<'a> CompilerState<'a> {
                 Ok(res)
             })
             .map_prefix(|op, rhs| match op.as_rule() {
-                Rule::neg => Ok(-rhs?),
+                Rule::neg => Ok(rhs?.wrapping_neg()),
                 Rule::not => Ok(if rhs? == 0 { 1 } else { 0 }),
                 Rule::bnot => Ok(!rhs?),
                 _ => unreachable!(),
@@ -1170,13 +1175,14 @@ impl<'a> CompilerState<'a> {
                                 set_const_ex = true;
                             }
                             Rule::bank => {
+                                let start = p.as_span().start();
                                 memory = VariableMemory::ROM(
                                     p.into_inner()
                                         .next()
                                         .unwrap()
                                         .as_str()
                                         .parse::<u32>()
-                                        .unwrap(),
+                                        .map_err(|_| self.syntax_error("Bad bank number", start))?,
                                 )
                             }
                             Rule::superchip => memory = VariableMemory::Superchip,
@@ -1303,7 +1309,12 @@ impl<'a> CompilerState<'a> {
                             Rule::array_spec => {
                                 start = p.as_span().start();
                                 if let Some(px) = p.into_inner().next() {
-                                    size = Some(self.parse_calc(px.into_inner())? as usize);
+                                    let size_start = px.as_span().start();
+                                    let v = self.parse_calc(px.into_inner())?;
+                                    if !(1..=65536).contains(&v) {
+                                        return Err(self.syntax_error("Bad array size", size_start));
+                                    }
+                                    size = Some(v as usize);
                                 }
                                 if var_type == VariableType::Char {
                                     var_type = VariableType::CharPtr;
@@ -1820,7 +1831,12 @@ impl<'a> CompilerState<'a> {
                                     Rule::array_spec => {
                                         start = p.as_span().start();
                                         if let Some(px) = p.into_inner().next() {
-                                            size = Some(self.parse_calc(px.into_inner())? as usize);
+                                            let size_start = px.as_span().start();
+                                            let v = self.parse_calc(px.into_inner())?;
+                                            if !(1..=65536).contains(&v) {
+                                                return Err(self.syntax_error("Bad array size", size_start));
+                                            }
+                                            size = Some(v as usize);
                                         }
                                         if var_type == VariableType::Char {
                                             var_type = VariableType::CharPtr;
@@ -1953,7 +1969,7 @@ impl<'a> CompilerState<'a> {
                         .unwrap()
                         .as_str()
                         .parse::<u32>()
-                        .unwrap();
+                        .map_err(|_| self.syntax_error("Bad bank number", start))?;
                     if bank != 0 && inline {
                         return Err(
                             self.syntax_error("Bank spec and inlining are incompatible", start)
@@ -2139,7 +2155,12 @@ impl<'a> CompilerState<'a> {
                                 Rule::array_spec => {
                                     start = pair.as_span().start();
                                     if let Some(px) = pair.into_inner().next() {
-                                        size = Some(self.parse_calc(px.into_inner())? as usize);
+                                        let size_start = px.as_span().start();
+                                        let v = self.parse_calc(px.into_inner())?;
+                                        if !(1..=65536).contains(&v) {
+                                            return Err(self.syntax_error("Bad array size", size_start));
+                                        }
+                                        size = Some(v as usize);
                                     }
                                     if var_type == VariableType::Char {
                                         var_type = VariableType::CharPtr;
